@@ -114,8 +114,16 @@ def intList? : Sexp → Option (List Int)
   | .list l => l.mapM Sexp.int?
   | _ => none
 
+/-- `(3 none 4)`: amap's result with None where a per-element task was ended by GeneratorExit -/
+def optIntList? : Sexp → Option (List (Option Int))
+  | .list l => l.mapM fun
+    | .atom "none" => some none
+    | x => x.int?.map some
+  | _ => none
+
 def res? : Sexp → Option (Res Nat)
   | .list [.atom "ok", .atom "vals", l] => (intList? l).map fun l => .ok (.vals l)
+  | .list [.atom "ok", .atom "ovals", l] => (optIntList? l).map fun l => .ok (.optVals l)
   | .list [.atom "ok", .atom "elems", l] => l.natList?.map fun l => .ok (.elems l)
   | .list [.atom "ok", .atom "elem", x] => x.nat?.map fun x => .ok (.elem x)
   | .list [.atom "ok", .atom "pair", y, n] => do some (.ok (.pair (← y.natList?) (← n.natList?)))
@@ -166,16 +174,21 @@ def handle (id : Nat) (_hdr : List Sexp) (body : List Sexp) : String :=
     let model := observeX env x c
     let want := expectedX env x c
     -- the Python built-in, run by the harness on the same input, must be what the Lean reference says
+    -- (inside the class domain only: with a StopIteration `list(map(..))` / `filter` silently stop at the bad element,
+    -- which is not what `firstBad` says - one more reason why these classes are outside the statement)
     let refOk := match findMap builtin? body with
-      | some b => b == want.res
+      | some b => b == want.res || !x.ordinary c
       | none => true
     let corr := model == impl && refOk
     let d :=
       if !refOk then short s!"python built-in disagrees with the Lean reference: reference={repr want.res}"
       else if model == impl then
-        -- a call with `default=` is judged like any other (SPEC and SPECM fail: `C14_default_kw_outside_statement`);
-        -- the generator only produces such calls when told that they belong to the statement
-        (if c.inStatement then "" else "call outside the statement of C14 (amax/amin with default=)")
+        -- a call with `default=` / with a generator-protocol exception class is judged like any other (SPEC and SPECM
+        -- fail: `C14_default_kw_outside_statement`, `C14_stopIteration_outside_statement`, ..); the generator only
+        -- produces such calls when told that they belong to the statement
+        (if !c.inStatement then "call outside the statement of C14 (amax/amin with default=)"
+         else if !x.ordinary c then "call outside the statement of C14 (StopIteration / GeneratorExit class)"
+         else "")
       else describe model impl
     let spec := specClauseX env x c impl
     let specm := specClauseX env x c model
